@@ -35,7 +35,9 @@ EXPLANATION = (
   "rows of the trimmed update and only when it is non-empty, after the doc action (R4); a "
   "change of recalcWhen/recalcDeps and every usercode rebuild schedule a rebuild of the edges, "
   "which happens before the bundle's recalculation (R5); the RecalcWhen constants equal the "
-  "TypeScript enum (R6). Not decided: the exact firing set (value level).")
+  "TypeScript enum (R6); edges leave the dependency graph only through "
+  "Graph.clear_dependencies, i.e. when the depending column drops them -- trigger edges are not "
+  "re-created before the end of the bundle (R7). Not decided: the exact firing set (value level).")
 
 
 def check(run, repo, tier):
@@ -46,6 +48,7 @@ def check(run, repo, tier):
   V(run, repo, r4_manual_updates)
   V(run, repo, r5_rebuild_trigger)
   V(run, repo, r6_enum, repo)
+  V(run, repo, r7_edges_removed_by_dependent_only)
   H.finish_views(run, repo)
 
 
@@ -138,9 +141,9 @@ def r1_dependencies(run, w):
       return "is-formula"
     if t2 == "%s.has_formula()" % col_obj:
       return "has-formula"
-    rec = _is_recalc_when(e2, "DEFAULT")
-    if rec is not None and _col_rec_lookup(fn, rec, table_id, col_id):
-      return "default"
+    wr_ = _when_role(fn, e2, table_id, col_id, {"DEFAULT": "default"})
+    if wr_ is not None:
+      return wr_
     if isinstance(e2, ast.Compare) and len(e2.ops) == 1 and isinstance(e2.ops[0], ast.In) and \
         isinstance(e2.comparators[0], ast.Attribute) and \
         text(e2.comparators[0].value) == "self":
@@ -149,9 +152,15 @@ def r1_dependencies(run, w):
   cond = H.Conditions(fn, flow, key)
   considered = H.f_and(H.f_not(H.f_atom("is-formula")), H.f_atom("has-formula"))
   dflt, known = H.f_atom("default"), H.f_atom("edge-known")
+  def unread(actual, role, attr):
+    """An atom mentions the attribute but could not be tied to this column's record."""
+    return any(isinstance(a, str) and attr in a for a in H.f_atoms(actual))
   for (n, c) in adds:
     actual = cond.of_stmt(_stmt_of(fn.node, c), scope=cl)
     shown = "edge added when " + H.f_show(actual)
+    if unread(actual, "default", "recalcWhen"):
+      raise AnalysisError("_maybe_update_trigger_dependencies: cannot tell whose recalcWhen is "
+                          "tested: %s" % shown)
     run.ob(R1, fn.qualname, "if col_rec.recalcWhen == RecalcWhen.DEFAULT: ... add_edge",
            "dependency edges exist only for columns configured to recalculate on changes to "
            "their recalcDeps (the record being the trigger column's own)",
@@ -181,8 +190,15 @@ def r1_dependencies(run, w):
       for r in rs:
         okr = r.kind == "call" and endswith(dotted(r.node.func), "Edge") and \
             len(r.node.args) == 3 and not r.path
+        if not okr and r.kind in ("call", "unknown"):
+          raise AnalysisError("_maybe_update_trigger_dependencies: cannot read the edge %r" % r)
         if okr:
           o, i, rel = [flow.roots(a, r.nid) for a in r.node.args]
+          for part in (o, i):
+            if any(x.kind == "call" and not endswith(dotted(x.node.func), "Node") or
+                   x.kind == "unknown" for x in part):
+              raise AnalysisError("_maybe_update_trigger_dependencies: cannot read the nodes "
+                                  "of %s" % short(r.node))
           okr = _all_calls(o, "Node", [table_id, col_id]) and \
               _all_calls(i, "Node", [table_id, "%s.colId" % text(loop.target)]) and \
               _all_calls(rel, "SingleRowsIdentityRelation", [table_id])
@@ -215,28 +231,95 @@ def r1_dependencies(run, w):
   # the relation drops ALL_ROWS
   sr = w.fn("relation.SingleRowsIdentityRelation.get_affected_rows")
   p = sr.fi.params()[1]
-  ok = False
-  rets = H.returns_of(sr.node)
-  if len(rets) == 1 and isinstance(rets[0].value, ast.IfExp):
-    v = rets[0].value
-    t = v.test
-    is_all = isinstance(t, ast.Compare) and len(t.ops) == 1 and \
-        {text(t.left), text(t.comparators[0])} == {p, "depend.ALL_ROWS"}
-    if is_all and isinstance(t.ops[0], ast.Eq):
-      ok = _empty_seq(v.body) and text(v.orelse) == p
-    elif is_all and isinstance(t.ops[0], ast.NotEq):
-      ok = _empty_seq(v.orelse) and text(v.body) == p
-  elif len(rets) == 2:
-    for s in sr.node.body:
-      if isinstance(s, ast.If) and isinstance(s.test, ast.Compare) and \
-          isinstance(s.test.ops[0], ast.Eq) and \
-          {text(s.test.left), text(s.test.comparators[0])} == {p, "depend.ALL_ROWS"}:
-        r1 = [x for x in s.body if isinstance(x, ast.Return)]
-        r2 = [x for x in rets if x not in r1]
-        ok = len(r1) == 1 and _empty_seq(r1[0].value) and len(r2) == 1 and text(r2[0].value) == p
+  srflow = H.Flow(sr)
+  def all_rows_pol(atoms):
+    out = set()
+    for (t, pol) in atoms:
+      t = H.inline(srflow, t)
+      if isinstance(t, ast.Compare) and len(t.ops) == 1 and isinstance(t.ops[0], (ast.Eq, ast.Is)) \
+          and {text(t.left), text(t.comparators[0])} == {p, "depend.ALL_ROWS"}:
+        out.add(pol)
+      else:
+        raise AnalysisError("SingleRowsIdentityRelation.get_affected_rows: cannot read the test "
+                            "%s" % short(t))
+    return out
+  ok = True
+  n_drop = n_pass = 0
+  for case in H.return_cases(sr.node):
+    v = H.inline(srflow, case.value) if case.value is not None else None
+    pols = all_rows_pol(case.atoms)
+    if v is not None and _empty_seq(v):
+      n_drop += 1
+      ok = ok and pols == {True}
+    elif v is not None and text(v) == p:
+      n_pass += 1
+      ok = ok and pols == {False}      # the rows pass only when they are not ALL_ROWS
+    else:
+      raise AnalysisError("SingleRowsIdentityRelation.get_affected_rows: cannot read the "
+                          "result %s" % (short(v) if v is not None else "None"))
+  ok = ok and n_drop >= 1 and n_pass >= 1
   run.ob(R1, sr.qualname, "[] if rows == ALL_ROWS else rows", "a whole-column invalidation of a "
          "dependency (rename, type change, ...) reaches no row of the trigger column; specific "
          "rows pass unchanged", ok, fi=sr.fi)
+
+
+def _when_role(fn, e2, table_expr, col_expr, roles):
+  """Role name of `<this column's record>.recalcWhen == RecalcWhen.<CONST>`: roles[CONST] or
+  'when:<CONST>'; None when e2 is not such a test (or the record is not this column's)."""
+  if not (isinstance(e2, ast.Compare) and len(e2.ops) == 1 and isinstance(e2.ops[0], ast.Eq)):
+    return None
+  for x, y in ((e2.left, e2.comparators[0]), (e2.comparators[0], e2.left)):
+    d = dotted(y)
+    if isinstance(x, ast.Attribute) and x.attr == "recalcWhen" and d and \
+        d.split(".")[-2:-1] == ["RecalcWhen"] and \
+        _col_rec_lookup(fn, text(x.value), table_expr, col_expr):
+      const = d.split(".")[-1]
+      return roles.get(const, "when:" + const)
+  return None
+
+
+def _user_action_applications(fn):
+  """CFG nodes of apply_user_actions that apply one user action: the call of
+  _apply_one_user_action, or -- when that helper is written out in the loop -- the dispatch call
+  that spreads the loop's user action (`<method>(*user_action)`). AnalysisError when neither is
+  found."""
+  app = fn.nodes_calling(lambda c, nm, f: nm == "self._apply_one_user_action")
+  if app:
+    return app
+  loopvars = {n.stmt.target.id for n in fn.cfg.nodes if n.kind == "for" and
+              isinstance(n.stmt.target, ast.Name)} | \
+      {e.id for n in fn.cfg.nodes if n.kind == "for" and isinstance(n.stmt.target, ast.Tuple)
+       for e in n.stmt.target.elts if isinstance(e, ast.Name)}
+  app = {n.id for (n, c, nm) in fn.calls()
+         if any(isinstance(a, ast.Starred) and isinstance(a.value, ast.Name) and
+                a.value.id in loopvars for a in c.args)}
+  if not app:
+    raise AnalysisError("%s: cannot find where a user action is applied" % fn.qualname)
+  return app
+
+
+def unread_role(actual, role, attr):
+  """An atom of the formula mentions `attr` but could not be tied to the role (e.g. the record
+  whose recalcWhen is tested is obtained in a way the rule cannot read)."""
+  return any(isinstance(a, str) and attr in a for a in H.f_atoms(actual))
+
+
+def _positional(w, call, qualname):
+  """The call with keyword arguments moved to their positions (when they continue the positional
+  ones) according to the named function's signature."""
+  import copy as _copy
+  fi = w.repo.func(qualname)
+  ps = fi.params()[1:]
+  c = _copy.copy(call)
+  c.args = list(call.args)
+  c.keywords = list(call.keywords)
+  while c.keywords:
+    nxt = [k for k in c.keywords if k.arg in ps and ps.index(k.arg) == len(c.args)]
+    if not nxt:
+      break
+    c.args.append(nxt[0].value)
+    c.keywords.remove(nxt[0])
+  return c
 
 
 def _all_calls(roots, suffix, argtexts):
@@ -285,6 +368,8 @@ def r2_new_records(run, w):
     tdefs = E.local_defs(fn.node, loop.iter.value.id)
     ok = len(tdefs) == 1 and isinstance(tdefs[0], ast.Subscript) and \
         endswith(dotted(tdefs[0].value), "_engine.tables") and text(tdefs[0].slice) == p_table
+  if not ok:
+    raise AnalysisError("doBulkAddOrReplace: cannot read over which columns %s is filled" % RC)
   run.ob(R2, fn.qualname, "for col_id in table.all_columns: %s.add(col_id)" % RC,
          "every column of the table the records are added to is a candidate for recalculation",
          ok, fi=fn.fi, node=loop or ic)
@@ -296,9 +381,9 @@ def r2_new_records(run, w):
       return "supplied"
     if text(e2) == "%s.startswith('_grist_')" % p_table:
       return "metadata-table"
-    rec = _is_recalc_when(e2, "NEVER")
-    if rec is not None and _col_rec_lookup(fn, rec, p_table, cv):
-      return "never"
+    wr_ = _when_role(fn, e2, p_table, cv, {"NEVER": "never"})
+    if wr_ is not None:
+      return wr_
     return None
   cond = H.Conditions(fn, flow, key)
   actual = cond.of_stmt(_stmt_of(fn.node, ac), scope=loop)
@@ -306,6 +391,8 @@ def r2_new_records(run, w):
   user_never = H.f_and(H.f_not(meta), nev)
   expected = H.f_and(H.f_not(sup), H.f_not(user_never))
   shown = H.f_show(actual)
+  if unread_role(actual, "never", "recalcWhen"):
+    raise AnalysisError("doBulkAddOrReplace: cannot tell whose recalcWhen is tested: %s" % shown)
   run.ob(R2, fn.qualname, "if col_id in %s: continue" % p_vals, "a column for which the action "
          "supplied a value is not recalculated",
          H.f_equivalent(H.f_and(actual, sup), H.F_FALSE), witness="added when " + shown,
@@ -332,11 +419,14 @@ def r2_new_records(run, w):
   ips = ir.fi.params()
   calls = [c for (n, c, nm) in ir.calls() if nm == "self.invalidate_column"]
   ok = False
+  if len(calls) != 1:
+    raise AnalysisError("invalidate_records: expected one invalidate_column call")
+  calls = [_positional(w, c, "engine.Engine.invalidate_column") for c in calls]
   if len(calls) == 1 and len(calls[0].args) == 3:
     c = calls[0]
     col = text(c.args[0])
     ok = text(c.args[1]) == ips[2] and \
-        text(c.args[2]) in ("%s.col_id in %s" % (col, ips[4]),)
+        text(H.inline(H.Flow(ir), c.args[2])) in ("%s.col_id in %s" % (col, ips[4]),)
   run.ob(R2, ir.qualname, "invalidate_column(column, row_ids, column.col_id in "
          "data_cols_to_recompute)", "the per-column recompute flag is exactly membership in the "
          "set the caller computed", ok, fi=ir.fi)
@@ -372,6 +462,8 @@ def r3_exemptions(run, w):
   ps = fn.fi.params()
   p_rows, p_cols = ps[2], ps[3]
   prev = [(n, c) for (n, c, nm) in fn.calls() if E.is_engine_call("prevent_recalc")(c, nm, fn)]
+  if len(prev) > 1:
+    raise AnalysisError("DocActions.BulkUpdateRecord: several prevent_recalc calls")
   ok = len(prev) == 1
   wit = None
   if ok:
@@ -385,6 +477,9 @@ def r3_exemptions(run, w):
           text(H.strip_passthrough(s.iter)) in (p_cols + ".items()", p_cols, p_cols + ".keys()"):
         loop = s
     ok = loop is not None
+    if not ok:
+      raise AnalysisError("DocActions.BulkUpdateRecord: prevent_recalc is not in a loop over "
+                          "the written columns")
     if ok:
       bflow = H.Flow(fn)
       cid = text(loop.target.elts[0]) if isinstance(loop.target, ast.Tuple) else text(loop.target)
@@ -472,7 +567,7 @@ def r3_exemptions(run, w):
         return bool(inner) and tf.cfg.dominated_by(tf.cfg.exit.id, inner)
     return False
   clr = fn.nodes_calling(clears)
-  app = fn.nodes_calling(lambda c, nm, f: nm == "self._apply_one_user_action")
+  app = _user_action_applications(fn)
   def over_actions(it):
     # the user actions, possibly enumerated / copied
     while isinstance(it, ast.Call) and dotted(it.func) in ("enumerate", "list", "tuple", "iter") \
@@ -621,6 +716,17 @@ def r4_manual_updates(run, w):
         bad.append(r)
     return bool(rs) and not bad, bad
 
+  def need_readable(bad, what):
+    """Origins that are not the trimmed update: a parameter / the untrimmed action is a
+    finding; a value from code we cannot read is not decidable."""
+    for r in bad:
+      if r.kind == "unknown" or (r.kind == "call" and not (
+          H._is_convert(r.node, flow.call_name(r.node)) or
+          endswith(flow.call_name(r.node), "trim_update_action", "translate_new_row_ids") or
+          E.action_ctor(r.node, set(w.doc_action_names())))):
+        raise AnalysisError("doBulkUpdateRecord: cannot follow where %s comes from (%r)"
+                            % (what, r))
+
   inv = [(n, c) for (n, c, nm) in fn.calls() if E.is_engine_call("invalidate_column")(c, nm, fn)]
   unp = [(n, c) for (n, c, nm) in fn.calls() if E.is_engine_call("prevent_recalc")(c, nm, fn)]
   (inn, ic) = _single(inv, "doBulkUpdateRecord: invalidate_column")
@@ -634,6 +740,8 @@ def r4_manual_updates(run, w):
   b = H.bind_args(ic, ice.fi)
   ips = ice.fi.params()
   ok, bad = from_trim(b[ips[2]], inn.id, 1) if ips[2] in b else (False, ["all rows"])
+  if ips[2] in b:
+    need_readable(bad, "the invalidated rows")
   run.ob(R4, fn.qualname, "invalidate_column(%s, <rows of the trimmed update>, ...)" % col_obj,
          "MANUAL_UPDATES columns are recalculated only for rows the update actually changed "
          "(the rows left by trim_update_action), not for every row the user action named", ok,
@@ -649,9 +757,9 @@ def r4_manual_updates(run, w):
       return "is-formula"
     if t2 == "%s.has_formula()" % col_obj:
       return "has-formula"
-    rec = _is_recalc_when(e2, "MANUAL_UPDATES")
-    if rec is not None and _col_rec_lookup(fn, rec, p_table, col_id):
-      return "manual-updates"
+    wr_ = _when_role(fn, e2, p_table, col_id, {"MANUAL_UPDATES": "manual-updates"})
+    if wr_ is not None:
+      return wr_
     if isinstance(e2, ast.Attribute) and e2.attr == "recalcOnChangesToSelf" and \
         _col_rec_lookup(fn, text(e2.value), p_table, col_id):
       return "depends-on-itself"
@@ -672,6 +780,9 @@ def r4_manual_updates(run, w):
   considered = H.f_and(H.f_not(H.f_atom("is-formula")), H.f_atom("has-formula"))
   nonempty = H.f_atom("update-non-empty")
   in_loop = cond.of_stmt(_stmt_of(fn.node, ic), scope=cl)
+  if unread_role(in_loop, "manual-updates", "recalcWhen"):
+    raise AnalysisError("doBulkUpdateRecord: cannot tell whose recalcWhen is tested: %s"
+                        % H.f_show(in_loop))
   # tests made after the update was trimmed (earlier ones concern the requested update)
   trims = {n.id for (n, c, nm) in H.calls(fn) if endswith(nm, "trim_update_action")}
   def after_trim(t):
@@ -811,6 +922,16 @@ def r5_rebuild_trigger(run, w):
   ru = w.fn("engine.Engine.rebuild_usercode")
   tc = ru.nodes_calling(lambda c, nm, f: nm == "self.trigger_columns_changed")
   mk = ru.nodes_calling(lambda c, nm, f: endswith(nm, "gencode.make_module"))
+  if not mk:
+    raise AnalysisError("rebuild_usercode: the module rebuild (gencode.make_module) not found")
+  if not tc:
+    moved = H.called_elsewhere(w, "trigger_columns_changed",
+                               ("engine.Engine.rebuild_usercode",
+                                "docactions.DocActions.BulkUpdateRecord",
+                                "engine.Engine.trigger_columns_changed"))
+    if moved:
+      raise AnalysisError("rebuild_usercode: trigger_columns_changed is not called here but in "
+                          "%s; cannot follow" % ", ".join(moved))
   ok = bool(tc) and bool(mk) and all(ru.cfg.postdominated_by(m, tc) for m in mk)
   run.ob(R5, ru.qualname, "make_module(...) ... -> self.trigger_columns_changed()",
          "after any rebuild (renames, added/removed columns) the edges are rebuilt", ok,
@@ -847,12 +968,60 @@ def r5_rebuild_trigger(run, w):
   cfg = au.cfg
   upd = au.nodes_calling(lambda c, nm, f: nm == "self._maybe_update_trigger_dependencies")
   rec = au.nodes_calling(lambda c, nm, f: nm == "self._bring_all_up_to_date")
-  app = au.nodes_calling(lambda c, nm, f: nm == "self._apply_one_user_action")
+  app = _user_action_applications(au)
+  if not rec:
+    raise AnalysisError("apply_user_actions: the recalculation (_bring_all_up_to_date) not found")
   ok = bool(upd) and bool(rec) and all(cfg.dominated_by(r, upd) for r in rec) and \
       not (cfg.reach_after(upd) & app)
   run.ob(R5, au.qualname, "user actions -> _maybe_update_trigger_dependencies() -> "
          "_bring_all_up_to_date()", "the edges reflect the bundle's configuration changes "
          "before anything is recalculated", ok, fi=au.fi)
+
+
+# --------------------------------------------------------------------------------------- R7
+
+def r7_edges_removed_by_dependent_only(run, w):
+  """Trigger edges (trigger column <- recalcDeps column, SingleRowsIdentityRelation) are built
+  only by _maybe_update_trigger_dependencies, at the end of a bundle. Unlike formula edges they
+  are not re-created by evaluating the dependent, and their relation swallows ALL_ROWS, so they
+  must stay in the graph until the *dependent* (trigger) column drops them: the graph may remove
+  edges only by their out node (clear_dependencies). Removing the edges that point at a node
+  (by in node) loses the trigger edges of every column depending on it until the next rebuild,
+  i.e. for the rest of the bundle."""
+  R7 = run.rule("C15-R7", "dependency edges leave the graph only through "
+                "Graph.clear_dependencies (by the depending node), never by the node depended on",
+                floor=1)
+  ci = w.repo.cls("depend.Graph")
+  init = w.fn("depend.Graph.__init__")
+  edge_sets = [s.targets[0].attr for s in walk_no_nested(init.node) if isinstance(s, ast.Assign)
+               and H.is_self_attr(s.targets[0]) and isinstance(s.value, ast.Call) and
+               dotted(s.value.func) == "set" and not s.value.args]
+  if len(edge_sets) != 1:
+    raise AnalysisError("depend.Graph.__init__: the set of all edges not found")
+  ALL = edge_sets[0]
+  allowed = {"depend.Graph.clear_dependencies"}
+  n = 0
+  for m in ci.methods.values():
+    fn = w.fn_of(m)
+    for (node, c, nm) in fn.calls():
+      if nm in ("self.%s.%s" % (ALL, x) for x in ("remove", "discard", "clear", "pop",
+                                                   "difference_update", "intersection_update")):
+        n += 1
+        run.ob(R7, m.qualname, short(c), "an edge is taken out of the graph only when the node "
+               "that depends through it drops its dependencies (trigger edges are not re-created "
+               "before the end of the bundle)", H._only_called_from(w, fn.fi, allowed), fi=m,
+               node=c)
+    for x in fn.cfg.nodes:
+      if x.kind == "stmt" and isinstance(x.stmt, (ast.Assign, ast.AugAssign)) and \
+          m.name != "__init__":
+        tg = x.stmt.targets if isinstance(x.stmt, ast.Assign) else [x.stmt.target]
+        if any(H.is_self_attr(t, ALL) for t in tg):
+          n += 1
+          run.ob(R7, m.qualname, short(x.stmt), "the set of all edges is not replaced or "
+                 "shrunk outside clear_dependencies", H._only_called_from(w, fn.fi, allowed),
+                 fi=m, node=x.stmt)
+  if n == 0:
+    raise AnalysisError("depend.Graph: no removal from the edge set found")
 
 
 # --------------------------------------------------------------------------------------- R6
@@ -1013,6 +1182,14 @@ VARIANTS = [
     # If needed, rebuild dependencies for trigger formulas.
     self._maybe_update_trigger_dependencies()
 """, "C15-R5"),
+  ("node-removed-with-edges-to-dependents", "sandbox/grist/depend.py",
+   """    if self._in_node_map.get(node, None):
+      return False
+    self.clear_dependencies(node)""",
+   """    for edge in self._in_node_map.get(node, ()):
+      self._all_edges.discard(edge)
+      self._out_node_map.get(edge.out_node, set()).discard(edge)
+    self.clear_dependencies(node)""", "C15-R7"),
   ("ts-enum-renumbered", TS,
    "  NEVER = 1,           // Don't calculate automatically",
    "  NEVER = 2,           // Don't calculate automatically", "C15-R6"),
